@@ -22,7 +22,7 @@ Task: produce TWO different, independent changes (A and B) to the LIBRARY source
  (3) needs something specific to manifest — a particular interleaving, a crash or fault at a particular point, a multi-step sequence of operations, an unusual input or configuration value, or two cooperating code sites that each look fine alone — i.e. NOT something ordinary use would expose at once;
  (4) is realistic: it should look like a plausible refactoring slip, 'optimisation', off-by-one, wrong comparison, forgotten case, reordered statements or misplaced cleanup that could get through review — no magic constants or obviously malicious special-casing.
 A and B must differ in mechanism (touch different functions or break different clauses of the property).
-For each change write a DEMONSTRATION through the public API: an integration test file (e.g. crates/<crate>/tests/seed_{pid.lower()}_a.rs; enable needed cargo features on the command line) or a small example program, which FAILS with the change applied and PASSES on the unmodified tree. You must actually verify both outcomes yourself (git stash / git checkout to flip the library change), and re-run the full existing suite with the change applied.
+For each change write a DEMONSTRATION through the public API: an integration test file (e.g. crates/<crate>/tests/seed_{pid.lower()}_a.rs; enable needed cargo features on the command line) or a small example program, which FAILS with the change applied and PASSES on the unmodified tree. You must actually verify both outcomes yourself (flip the library change with `git diff > /tmp/seed_{pid}/x.diff; git checkout -- <paths>; ...; git apply /tmp/seed_{pid}/x.diff` — do NOT use `git stash`: the stash is shared by all worktrees of /repo and other people work in parallel), and re-run the full existing suite with the change applied.
 
 Deliverables, in /tmp/seed_{pid}/out/A/ and /tmp/seed_{pid}/out/B/ :
   patch.diff  — `git diff` of the library-source change only (relative to the worktree root, applicable with `git apply` from the repository root);
